@@ -226,8 +226,16 @@ def check(case: dict[str, Any]) -> list[tuple[str, str]]:
     out: list[tuple[str, str]] = []
     if r["status"] != "ok":
         return [(f"C05/run-{r['status']}", f"harness run ended {r['status']}: {r['val']!r}; unfinished={r['state'].get('unfinished')}")]
-    trace = r["trace"]
     names = [f"c{i}" for i in range(len(case["callers"]))]
+    # Attribute every transport event to a caller by WHAT was transmitted (the DID identifies the caller), not by the task that
+    # happened to run it: an implementation may run an exchange in a helper task (e.g. under asyncio.shield).
+    did_owner = {c["did"]: f"c{i}" for i, c in enumerate(case["callers"])}
+    task_owner: dict[str, str] = {n: n for n in names}
+    for k, t, who, data in r["trace"]:
+        if k == "write" and who not in task_owner:
+            if data[0] == 0x22 and int.from_bytes(data[1:3], "big") in did_owner:
+                task_owner[who] = did_owner[int.from_bytes(data[1:3], "big")]
+    trace = [(k, t, task_owner.get(who, who), data) for k, t, who, data in r["trace"]]
     writes = [(t, who, data) for k, t, who, data in trace if k == "write"]
     recs = [(t, who) for k, t, who, _ in trace if k == "reconnect"]
     # exchange windows: first own transmission .. request() returned
@@ -246,6 +254,21 @@ def check(case: dict[str, Any]) -> list[tuple[str, str]]:
             if who != name and a < t < b - 1e-9:
                 out.append(("C05/interleaved/reconnect-inside-exchange", f"{who} reconnected at t={t:.3f} inside the exchange of {name} [{a:.3f}, {b:.3f}]"))
                 break
+        # while an exchange is open only its owner consumes replies from the transport
+        for k, t, who, data in trace:
+            if k == "read" and who != name and a < t < b - 1e-9:
+                out.append(("C05/interleaved/foreign-read-inside-exchange",
+                            f"{who} consumed {data.hex() if isinstance(data, bytes) else data} from the transport at t={t:.3f} inside the exchange of {name} [{a:.3f}, {b:.3f}]; {_tr(trace)}"))
+                break
+    # nothing may be transmitted or consumed on behalf of a caller after its request() has returned or was cancelled
+    for name in names:
+        if name not in r["windows"]:
+            continue
+        end = r["windows"][name][1]
+        late = [(k, t) for k, t, who, _ in trace if who == name and k in ("write", "read") and t > end + 1e-9]
+        if late:
+            out.append(("C05/exchange-continues-after-caller-finished", f"{name} finished/cancelled at t={end:.3f} but its exchange went on: {late[:4]}; {_tr(trace)}"))
+            break
     # the worker's exchanges are protected as well
     for w0, w1, wname in r["pings"]:
         own = [t for t, who, _ in writes if who == wname and w0 <= t <= (w1 if w1 >= 0 else 1e18)]
